@@ -948,10 +948,19 @@ def tiers(prop):
 # enumeration legs (labelled as enumeration in the evidence)
 
 
+VLQ_SLICES = 64
+
+
 def legs(prop, tier):
     if prop == "C16":
-        return ["vlq_encoder"]
-    return ["vlq_inverse", "bpm_sweep", "header_flips"]
+        base = ["vlq_encoder"]
+        if tier == "thorough":
+            base += ["vlq_encoder_all:%d" % k for k in range(VLQ_SLICES)]  # every integer 0..2^28-1, in parallel slices
+        return base
+    base = ["vlq_inverse", "bpm_sweep", "header_flips"]
+    if tier == "thorough":
+        base += ["vlq_inverse_all:%d" % k for k in range(VLQ_SLICES)]
+    return base
 
 
 def _vlq_numbers():
@@ -966,6 +975,34 @@ def run_leg(prop, tier, seed, name):
     preload(prop)
     failures = []
     n = 0
+    if name.startswith("vlq_encoder_all:") or name.startswith("vlq_inverse_all:"):
+        from mingus.midi.midi_track import MidiTrack
+        import mingus.midi.midi_file_in as mfi
+
+        k = int(name.split(":")[1])
+        size = (1 << 28) // VLQ_SLICES
+        lo, hi = k * size, (k + 1) * size
+        enc = MidiTrack().int_to_varbyte
+        inverse = name.startswith("vlq_inverse_all:")
+        rd = mfi.MidiFile()
+        bad = []
+        std = smf.vlq_encode
+        for v in range(lo, hi):
+            try:
+                e = enc(v)
+                if inverse:
+                    if rd.parse_varbyte_as_int(io.BytesIO(e)) != (v, len(e)):
+                        bad.append((v, e.hex()))
+                elif e != std(v):
+                    bad.append((v, e.hex(), std(v).hex()))
+            except Exception as ex:
+                bad.append((v, "raised %s" % type(ex).__name__))
+            if len(bad) > 20:
+                break
+        clause = "C17.vlq_inverse" if inverse else "C16.vlq"
+        if bad:
+            failures.append({"clause": clause, "detail": "%s: %d integers in [%d, %d) wrong, first: %s" % ("reader does not invert the writer" if inverse else "int_to_varbyte differs from the standard encoding", len(bad), lo, hi, bad[:3]), "features": {"leg": name.split(":")[0]}, "program": {"prop": prop, "cfg": {}, "ops": [{"op": "leg", "name": name, "tier": tier}]}})
+        return {"leg": name, "kind": "enumeration (not seeded search)", "cases": hi - lo, "exhaustive": True, "note": "slice %d of %d of the full range 0..2^28-1" % (k, VLQ_SLICES), "failures": failures}
     if name == "vlq_encoder":
         from mingus.midi.midi_track import MidiTrack
 
